@@ -43,7 +43,7 @@ def decStatic : Sexp → Option StaticPolicySet
   | .list [.atom "text", .atom "bad"] => some (.concatenated none)
   | .list (.atom "text" :: items) => (items.mapM decItem).map (fun is => .concatenated (some is))
   | .list (.atom "set" :: ds) => (ds.mapM decDoc).map .set
-  | .list (.atom "map" :: es) => (es.mapM (fun e => match e with
+  | .list (.atom "map" :: es) => (es.mapM (fun (e : Sexp) => match e with
       | .list [.str id, d] => (decDoc d).map (fun d => (id, d))
       | _ => none)).map .map
   | _ => none
@@ -68,7 +68,7 @@ def encErr : Err → String
 def handleFfiPols (x : Sexp) : Option String :=
   match x with
   | .list [.atom "ffipols", .list [.atom "static", s], .list (.atom "templates" :: ts), .list (.atom "links" :: ls)] =>
-    match decStatic s, ts.mapM (fun e => match e with
+    match decStatic s, ts.mapM (fun (e : Sexp) => match e with
         | .list [.str id, d] => (decTDoc d).map (fun d => (id, d))
         | _ => none), ls.mapM decLink with
     | some s, some ts, some ls =>
